@@ -565,11 +565,14 @@ def value_error_tests(fn, params):
 
 
 def normalised_args(fn, names):
-    """every `x = np.atleast_1d(x).astype('f8')` of the function"""
+    """every `x = np.atleast_1d(x).astype('f8')` (optionally `.ravel()`) of the function"""
     got = []
     for st in fn.body:
         if isinstance(st, ast.Assign) and len(st.targets) == 1 and isinstance(st.targets[0], ast.Name):
             v = st.value
+            if (isinstance(v, ast.Call) and isinstance(v.func, ast.Attribute) and v.func.attr == "ravel" and not v.args
+                    and not v.keywords):
+                v = v.func.value      # np.atleast_1d(x).astype('f8').ravel(): flattened for the C code
             if (isinstance(v, ast.Call) and isinstance(v.func, ast.Attribute) and v.func.attr == "astype"
                     and len(v.args) == 1 and isinstance(v.args[0], ast.Constant) and v.args[0].value == "f8"
                     and isinstance(v.func.value, ast.Call) and isinstance(v.func.value.func, ast.Attribute)
@@ -617,6 +620,21 @@ def extract_py(text):
     except Exception:
         raise TranslateError("read_pairs: dtype is not a literal")
     _need(all(len(x) == 2 and all(isinstance(y, str) for y in x) for x in p["dtype"]), "read_pairs: dtype entries")
+    # the shortcut for the empty file of a match without pairs: if os.path.getsize(filename) OP N: data = np.zeros(0, dtype=dtype)
+    p["shortcut"], p["shortcut_text"] = "false", None
+    for st in rp.body:
+        if (isinstance(st, ast.If) and isinstance(st.test, ast.Compare) and len(st.test.ops) == 1
+                and (ast.get_source_segment(text, st.test.left) or "").replace(" ", "") == "os.path.getsize(filename)"):
+            _need(p["shortcut_text"] is None, "read_pairs: one test of the file size")
+            cmpn = ast.Compare(left=ast.Attribute(value=ast.Name(id="file"), attr="size"), ops=st.test.ops, comparators=st.test.comparators)
+            p["shortcut"] = py_test(cmpn, ["file_size"])
+            p["shortcut_text"] = ast.get_source_segment(text, st.test)
+            body = " ".join((ast.get_source_segment(text, st.body[-1]) or "").split())
+            _need(len(st.body) == 1 and body == "data = np.zeros(0, dtype=dtype)", "read_pairs: the empty-file branch assigns np.zeros(0, dtype=dtype)")
+            _need(len(st.orelse) == 1 and isinstance(st.orelse[0], ast.With), "read_pairs: else branch reads with Recfile")
+    hr = method("HTM", "read")
+    seg = " ".join((ast.get_source_segment(text, hr.body[-1]) or "").split())
+    _need(seg == "return read_pairs(filename, verbose=verbose)", "HTM.read returns read_pairs(filename, verbose=verbose)")
     seg = ast.get_source_segment(text, rp) or ""
     m = re.search(r"Recfile\(\s*filename\s*,\s*[\"']r[\"']\s*,\s*dtype\s*=\s*dtype\s*,\s*delim\s*=\s*([\"'])(.*?)\1\s*\)", seg)
     _need(m is not None, "read_pairs: Recfile(filename, 'r', dtype=dtype, delim=...)")
@@ -691,7 +709,9 @@ def gen_text(c, p):
           "Definition src_htm_match_rejects (ra1_size dec1_size ra2_size dec2_size radius_size : Z) : bool := %s." % p["htm_rejects"],
           "(* read_pairs: Recfile(filename, \"r\", dtype=dtype, delim=...) *)",
           "Definition src_pair_dtype : list (string * string) := [%s]." % "; ".join("(%s, %s)" % (cstring(a), cstring(b)) for a, b in p["dtype"]),
-          "Definition src_pair_delim : string := %s." % cstring(p["delim"]), ""]
+          "Definition src_pair_delim : string := %s." % cstring(p["delim"]),
+          "(* read_pairs: %s *)" % (("if %s: data = np.zeros(0, dtype=dtype)" % p["shortcut_text"]) if p["shortcut_text"] else "no test of the file size in this tree"),
+          "Definition src_read_pairs_shortcut (file_size : Z) : bool := %s." % p["shortcut"], ""]
     return "\n".join(L)
 
 
